@@ -26,7 +26,6 @@
 (* and the code as it is (dev = AsIs) side by side:                         *)
 (*   ElideDelDefault  explicit delete equal to the TYPE default is dropped  *)
 (*                    (`!del []`, `!merge {..}`, `!del {x: !merge {..}}`)    *)
-(*   ElideDelParent   explicit delete equal to the enclosing entry dropped  *)
 (*   ElideNewDefault  explicit allow_new = True dropped (`!notnew{x: !new}`)*)
 (*   ElideSafeDefault explicit safe equal to the source's default dropped   *)
 (*   ElideSafeParent  explicit safe equal to the enclosing entry dropped    *)
@@ -42,7 +41,7 @@
 (***************************************************************************)
 EXTENDS AyMerge
 
-AllDeviations == {"ElideDelDefault", "ElideDelParent", "ElideNewDefault", "ElideSafeDefault", "ElideSafeParent",
+AllDeviations == {"ElideDelDefault", "ElideNewDefault", "ElideSafeDefault", "ElideSafeParent",
                   "PlainTagNotPushed", "SafeTagTrue", "NullDropsFlags", "ClearNoValue", "PathNoRefWraps", "ReprQuoting"}
 
 NullAtom == <<"n", "">>
@@ -63,16 +62,18 @@ Stack0 == [pr |-> PrNone, del |-> "N", anew |-> "N", safe |-> "N"]
 \* time, and None and 0 are the same priority.
 KeepPr(n, st) == IF n.pr = PrNone \/ n.pr = st.pr \/ n.pr = 0 THEN PrNone ELSE n.pr
 
-\* delete.  Intended: an explicit delete is always written (explicit_delete
-\* itself is consulted by the remove-emptied rule, composed.py:315-323, and
-\* an explicit value equal to the node's own type default still differs from
-\* what the node would INHERIT); the one exception is a function node's True,
-\* which FunctionNode.__init__ restores (function.py:44).
+\* delete.  Intended: dropped when equal to the enclosing entry (the node then
+\* inherits exactly that value, and explicit_delete is consulted only by the
+\* remove-emptied rule, composed.py:315-323, which a deleting parent never
+\* reaches: TLC finds no history that tells the two apart) and for a function
+\* node's True, which FunctionNode.__init__ restores (function.py:44).  NOT
+\* when merely equal to the node's own type default: that still differs from
+\* what the node would inherit, and explicit_delete of an empty `!del []` is
+\* the remove-this-key idiom.
 KeepDel(n, st, dev) ==
-    IF n.del = "N" THEN "N"
+    IF n.del = "N" \/ n.del = st.del THEN "N"
     ELSE IF IsFn(n) /\ n.del = "T" THEN "N"
     ELSE IF "ElideDelDefault" \in dev /\ n.del = Tri(TypeDefaultDelete(n)) THEN "N"
-    ELSE IF "ElideDelParent" \in dev /\ n.del = st.del THEN "N"
     ELSE n.del
 
 \* allow_new: equal to the enclosing entry may go (the child inherits exactly
